@@ -9,7 +9,8 @@ MISSED_FIRST = {
     2: {"C01": "", "C05": "quick (thorough caught it)", "C06": "", "C08": "", "C09": "", "C13": "", "C20": ""},
     3: {"C01": "", "C03": "", "C05": "", "C07": "", "C08": "", "C10": "", "C11": "", "C12": "", "C14": "", "C17": "", "C19": "", "C20": ""},
     4: {"C01": "", "C02": "", "C03": "", "C04": "quick (thorough reaches the history at depth 6)", "C08": "", "C10": "", "C12": "", "C13": "", "C14": "C13 reported it", "C17": "", "C20": ""},
-    5: {},
+    5: {"C01": "", "C02": "", "C03": "", "C08": "", "C13": "", "C17": ""},
+    6: {},
 }
 
 
@@ -39,12 +40,12 @@ def row(f):
     return name, '| %s | %s | %s | %s | %s | %s | %s |' % (name, files, summ, need, base_s, demo_ok, '; '.join(det))
 
 
-rounds = {1: [], 2: [], 3: [], 4: [], 5: []}
+rounds = {1: [], 2: [], 3: [], 4: [], 5: [], 6: []}
 for f in sorted(glob.glob('/verif/seeded/*/meta.json')):
     name = os.path.basename(os.path.dirname(f))
-    rnd = {'': 1, 'b': 2, 'c': 3, 'd': 4, 'e': 5}[re.sub(r'^C\d\d', '', name)]
+    rnd = {'': 1, 'b': 2, 'c': 3, 'd': 4, 'e': 5, 'f': 6}[re.sub(r'^C\d\d', '', name)]
     rounds[rnd].append(row(f))
-for rnd in (1, 2, 3, 4, 5):
+for rnd in (1, 2, 3, 4, 5, 6):
     if not rounds[rnd]:
         continue
     print('\n**Round %d** (%d changes)\n' % (rnd, len(rounds[rnd])))
@@ -53,4 +54,4 @@ for rnd in (1, 2, 3, 4, 5):
     for name, line in rounds[rnd]:
         print(line)
     miss = MISSED_FIRST[rnd]
-    print('\nMissed by the first version of the check that met it: %s.' % (', '.join('%s%s' % (k + {1: '', 2: 'b', 3: 'c', 4: 'd', 5: 'e'}[rnd], (' - ' + v) if v else '') for k, v in sorted(miss.items())) or 'none'))
+    print('\nMissed by the first version of the check that met it: %s.' % (', '.join('%s%s' % (k + {1: '', 2: 'b', 3: 'c', 4: 'd', 5: 'e', 6: 'f'}[rnd], (' - ' + v) if v else '') for k, v in sorted(miss.items())) or 'none'))
